@@ -288,12 +288,23 @@ func stressSeq(r *rand.Rand) string {
 	var overlap atomic.Int64
 	var mu sync.Mutex
 	seen := map[int][]int{}
-	body := func(e SEv) {
+	var extra sync.WaitGroup
+	body := func(ctx context.Context, e SEv) {
 		if inside.Add(1) != 1 {
 			overlap.Add(1)
 		}
 		if e.N%3 == 0 {
 			runtime.Gosched()
+		}
+		if ctx != nil && e.N == 2 && e.Pub < 100 {
+			// the handler hands its context to another goroutine, which publishes the same event type with it while this
+			// invocation is still running: that delivery, too, waits until this one is over
+			extra.Add(1)
+			go func() {
+				defer extra.Done()
+				eb.PublishContext(bus, ctx, SEv{100 + e.Pub, 0})
+			}()
+			time.Sleep(200 * time.Microsecond)
 		}
 		mu.Lock()
 		seen[e.Pub] = append(seen[e.Pub], e.N)
@@ -305,9 +316,9 @@ func stressSeq(r *rand.Rand) string {
 	}
 	viaCtx := r.Intn(2) == 0 // the same guarantees hold for handlers registered with SubscribeContext
 	if viaCtx {
-		eb.SubscribeContext(bus, func(_ context.Context, e SEv) { body(e) }, opts...)
+		eb.SubscribeContext(bus, func(ctx context.Context, e SEv) { body(ctx, e) }, opts...)
 	} else {
-		eb.Subscribe(bus, body, opts...)
+		eb.Subscribe(bus, func(e SEv) { body(nil, e) }, opts...)
 	}
 	G, N := 2+r.Intn(3), 6
 	var wg sync.WaitGroup
@@ -330,6 +341,19 @@ func stressSeq(r *rand.Rand) string {
 	}
 	if !waitTimeout(bus.Wait, 2*time.Second) {
 		return fmt.Sprintf("Sequential(async=%v) handler: Wait does not return", async)
+	}
+	if !waitTimeout(extra.Wait, 2*time.Second) {
+		return fmt.Sprintf("Sequential(async=%v) handler: a publish made with the handler's context from another goroutine does not return", async)
+	}
+	if !waitTimeout(bus.Wait, 2*time.Second) {
+		return fmt.Sprintf("Sequential(async=%v) handler: Wait does not return", async)
+	}
+	if viaCtx {
+		for p := 0; p < G; p++ {
+			if len(seen[100+p]) != 1 {
+				return fmt.Sprintf("Sequential(async=%v) handler: the event published with the handler's context from another goroutine was delivered %d times", async, len(seen[100+p]))
+			}
+		}
 	}
 	if overlap.Load() != 0 {
 		return fmt.Sprintf("Sequential(async=%v) handler: %d overlapping invocations", async, overlap.Load())
@@ -553,6 +577,8 @@ func stressDomain(lines []string) []string {
 			sc = stressObs
 		case "seqcancel":
 			sc = stressSeqCancel
+		case "seqburst":
+			sc = stressSeqBurst
 		default:
 			out = append(out, "bad-op "+line)
 			continue
@@ -572,6 +598,35 @@ func stressDomain(lines []string) []string {
 }
 
 type seqCancelEv struct{ N int }
+
+type seqBurstEv struct{ N int }
+
+// stressSeqBurst (C07, the tie of M2t): one Async+Sequential handler that returns at once, one publisher that publishes a
+// burst back to back, so that goroutines arrive at the ticket lock just while their predecessor hands the turn on – the
+// window in which a wake-up could be lost. Every event is delivered exactly once, in publish order, and Wait returns
+func stressSeqBurst(r *rand.Rand) string {
+	bus := eb.New()
+	n := 16 + r.Intn(64)
+	got := make([]int, 0, n)
+	eb.Subscribe(bus, func(e seqBurstEv) {
+		got = append(got, e.N) // unsynchronised on purpose: Sequential invocations never overlap (and the race stress sees it)
+	}, eb.Async(), eb.Sequential())
+	for i := 0; i < n; i++ {
+		eb.Publish(bus, seqBurstEv{i})
+	}
+	if !waitTimeout(bus.Wait, 5*time.Second) {
+		return fmt.Sprintf("Async+Sequential handler: a burst of %d events, Wait does not return (a goroutine is parked in the ticket lock while its turn has come?)", n)
+	}
+	if len(got) != n {
+		return fmt.Sprintf("Async+Sequential handler: %d of %d events of a burst delivered", len(got), n)
+	}
+	for i, v := range got {
+		if v != i {
+			return fmt.Sprintf("Async+Sequential handler: a burst processed in order %v", got)
+		}
+	}
+	return ""
+}
 
 // stressSeqCancel: a synchronous Sequential handler is busy; a second publisher passes its context check and waits for the
 // handler's mutex; its context is cancelled; once the mutex is free the handler must NOT be started for that event any more
